@@ -66,26 +66,30 @@ OX  == <<1, 2, 3, 4, 5, 12>>
 
 QuickFams == <<
   \* key and one sort column: index and sorted-cache maintenance
-  Fam("key",    2, K12, {None}, {None, I(1)}, {St("a")}, {I(0)}, DataOps, 2, 3, OK1, PK),
+  Fam("key",    2, K12, {None}, {None, I(1)}, {St("a")}, {I(0)}, {"updk", "upds1", "add", "rem"}, 2, 3, OK1, PK),
   \* one key, two sort columns and manualSort
   Fam("sort2",  2, {I(1)}, {None}, {I(1), I(2)}, {St("a"), St("b")}, {I(0)}, {"upds1", "upds2", "mv", "rem"}, 2, 2, OS2, PS),
   \* CONTAINS on a list column
   Fam("list",   1, {I(1)}, {None, La, Lab}, {I(1), I(2)}, {St("a")}, {I(0)}, {"updL", "upds1", "add", "rem"}, 2, 2, OL, PL),
   \* reference keys, alt-text and empty keys
-  Fam("ref",    2, {I(1), None, St("x")}, {None}, {I(1)}, {St("a")}, {I(1), I(2)}, {"updk", "updr", "rem"}, 2, 2, OR, PR),
+  Fam("ref",    1, {I(1), None, St("x")}, {None}, {I(1)}, {St("a")}, {I(1), I(2)}, {"updk", "updr", "add", "rem"}, 2, 2, OR, PR),
   \* two cells in one action, bulk updates, undo
-  Fam("multi",  2, K12, {None}, {I(1), I(2)}, {St("a")}, {I(0)}, {"upd2", "bupd", "undo", "rem"}, 2, 2, OM, PK),
+  Fam("multi",  2, K12, {None}, {I(1), I(2)}, {St("a")}, {I(0)}, {"upd2", "bupd", "undo"}, 2, 2, OM, PK),
   \* schema-level edits: type change of the sort column, observers re-entered, ReplaceTableData, probe edits
   Fam("schema", 2, K12, {None}, {I(1), I(2)}, {St("a")}, {I(0)}, {"retype", "reobs", "repl", "probe", "upds1"}, 2, 2, OX, PK)
 >>
 ThoroughFams == <<
-  Fam("key",    2, K12, {None}, {None, I(1)}, {St("a")}, {I(0)}, DataOps, 3, 3, OK1, PK),
-  Fam("key3",   2, K12, {None}, {None, I(1), I(2)}, {St("a")}, {I(0)}, DataOps, 2, 3, OK1, PK),
-  Fam("sort2",  2, {I(1)}, {None}, {I(1), I(2)}, {St("a"), St("b")}, {I(0)}, {"upds1", "upds2", "mv", "add", "rem"}, 3, 3, OS2, PS),
-  Fam("list",   1, {I(1)}, {None, La, Lab, Lb}, {I(1), I(2)}, {St("a")}, {I(0)}, {"updL", "upds1", "add", "rem"}, 3, 3, OL, PL),
-  Fam("ref",    2, {I(1), None, St("x")}, {None}, {I(1), I(2)}, {St("a")}, {I(1), I(2)}, {"updk", "updr", "upds1", "rem", "add"}, 2, 3, OR, PR),
-  Fam("multi",  2, K12, {None}, {I(1), I(2)}, {St("a")}, {I(0)}, {"upd2", "bupd", "undo", "rem", "add"}, 3, 3, OM, PK),
-  Fam("schema", 2, K12, {None}, {I(1), I(2)}, {St("a")}, {I(0)}, {"retype", "reobs", "repl", "probe", "upds1", "updk"}, 3, 2, OX, PK)
+  Fam("key",    2, K12, {None}, {None, I(1)}, {St("a")}, {I(0)}, {"updk", "upds1", "add", "rem"}, 3, 3, OK1, PK),
+  Fam("keymv",  2, K12, {None}, {None, I(1), I(2)}, {St("a")}, {I(0)}, DataOps, 2, 3, OK1, PK),
+  Fam("sort2",  2, {I(1)}, {None}, {I(1), I(2)}, {St("a"), St("b")}, {I(0)}, {"upds1", "upds2", "mv"}, 3, 2, OS2, PS),
+  Fam("sort2r", 2, {I(1)}, {None}, {I(1), I(2)}, {St("a"), St("b")}, {I(0)}, {"upds1", "upds2", "mv", "add", "rem"}, 2, 3, OS2, PS),
+  Fam("list",   1, {I(1)}, {None, La, Lab}, {I(1), I(2)}, {St("a")}, {I(0)}, {"updL", "upds1", "add", "rem"}, 3, 2, OL, PL),
+  Fam("list4",  1, {I(1)}, {None, La, Lab, Lb}, {I(1), I(2)}, {St("a")}, {I(0)}, {"updL", "upds1", "add", "rem"}, 2, 3, OL, PL),
+  Fam("ref",    1, {I(1), None, St("x")}, {None}, {I(1), I(2)}, {St("a")}, {I(1), I(2)}, {"updk", "updr", "upds1", "rem", "add"}, 2, 3, OR, PR),
+  Fam("multi",  2, K12, {None}, {I(1), I(2)}, {St("a")}, {I(0)}, {"upd2", "bupd", "undo", "rem", "add"}, 2, 3, OM, PK),
+  Fam("multi3", 2, K12, {None}, {I(1), I(2)}, {St("a")}, {I(0)}, {"upd2", "undo"}, 3, 2, OM, PK),
+  Fam("schema", 2, K12, {None}, {I(1), I(2)}, {St("a")}, {I(0)}, {"retype", "reobs", "repl", "probe", "upds1"}, 2, 2, OX, PK),
+  Fam("schema3", 2, {I(1)}, {None}, {I(1), I(2)}, {St("a")}, {I(0)}, {"retype", "reobs", "repl", "probe", "upds1"}, 3, 2, OX, PK)
 >>
 
 ObsOf(fm) == [x \in 1..Len(fm.obs) |-> ObsStd[fm.obs[x]]]
